@@ -1,4 +1,5 @@
 import Aldy.Driver.C05
+import Aldy.Driver.C02
 
 /-! Line-protocol driver: one JSON object per input line (`{"op": ..., ...}`), one JSON
 object per output line.  Errors are reported as `{"error": msg}`; the driver never guesses. -/
@@ -11,20 +12,45 @@ def dispatch (j : Json) : Except String Json := do
   | "c05" => opC05 j
   | "shape_ilp" => opShapeIlp j
   | "escape" => opEscape j
+  | "major_build" => opMajorBuild j
+  | "major_filter" => opMajorFilter j
   | "ping" => pure (objJ [("pong", boolJ true)])
   | _ => .error s!"unknown op {op}"
 
-partial def loop (hin hout : IO.FS.Stream) : IO Unit := do
+/-- Large shared inputs (gene views) are sent once with `{"op":"put","id":..,"value":..}` and
+referenced afterwards as `{"ref": id}` in any top-level field. -/
+def resolve (store : List (String × Json)) (j : Json) : Json :=
+  match j with
+  | .obj kvs =>
+    Json.mkObj <| kvs.toList.map fun (k, v) =>
+      match v.getObjVal? "ref" with
+      | .ok (.str id) => (k, (store.lookup id).getD v)
+      | _ => (k, v)
+  | _ => j
+
+partial def loop (hin hout : IO.FS.Stream) (store : List (String × Json)) : IO Unit := do
   let line ← hin.getLine
   if line.isEmpty then return ()
-  let out := match Json.parse line with
-    | .error e => objJ [("error", strJ s!"json: {e}")]
-    | .ok j => match dispatch j with
-      | .ok r => r
-      | .error e => objJ [("error", strJ e)]
-  hout.putStrLn out.compress
-  hout.flush
-  loop hin hout
+  match Json.parse line with
+  | .error e =>
+    hout.putStrLn (objJ [("error", strJ s!"json: {e}")]).compress
+    hout.flush
+    loop hin hout store
+  | .ok j =>
+    match j.getObjVal? "op" with
+    | .ok (.str "put") =>
+      let id := match j.getObjVal? "id" with | .ok (.str s) => s | _ => ""
+      let v := match j.getObjVal? "value" with | .ok v => v | _ => .null
+      hout.putStrLn (objJ [("stored", strJ id)]).compress
+      hout.flush
+      loop hin hout ((id, v) :: store.filter (fun e => e.1 != id))
+    | _ =>
+      let out := match dispatch (resolve store j) with
+        | .ok r => r
+        | .error e => objJ [("error", strJ e)]
+      hout.putStrLn out.compress
+      hout.flush
+      loop hin hout store
 
 def main : IO Unit := do
-  loop (← IO.getStdin) (← IO.getStdout)
+  loop (← IO.getStdin) (← IO.getStdout) []
